@@ -142,3 +142,8 @@ package entity
 //@   props C13
 //@   purefn
 //@   ensures result == (typeof(err) == type[*ErrMultipleMatch])
+
+// RefsToIds only builds a new list.
+//@ func RefsToIds
+//@   props C14
+//@   modifies nothing
